@@ -943,6 +943,68 @@ fn c09_int_or_big() {
     assert!(matches!(&*r1, Num::BigInt(b) if b.to_i128() == Some(7)));
 }
 
+/// recording `std::io::Write` (the flavour `to_json` and the CLI use)
+struct IoBuf {
+    b: [u8; 12],
+    n: usize,
+}
+impl std::io::Write for IoBuf {
+    fn write(&mut self, bytes: &[u8]) -> std::io::Result<usize> {
+        let mut i = 0;
+        while i < bytes.len() {
+            assert!(self.n < 12);
+            self.b[self.n] = bytes[i];
+            self.n += 1;
+            i += 1;
+        }
+        Ok(bytes.len())
+    }
+    fn flush(&mut self) -> std::io::Result<()> {
+        Ok(())
+    }
+}
+/// The whole `write_utf8!` macro (its `is_special` predicate, the splitting, `write_byte!`) on
+/// the one-byte text string `[c]`: quote, the escape the spec requires for `c` or `c` itself,
+/// quote.  One byte per harness (a block of 16 exceeds 800 s): the boundaries of the predicate.
+fn write_utf8_one(c: u8) {
+    use std::io::Write;
+    let mut buf = IoBuf { b: [0; 12], n: 0 };
+    let s: &[u8] = &[c];
+    let r: std::io::Result<()> = {
+        let w = &mut buf;
+        (|| crate::write_utf8!(w, s, |part: &[u8]| w.write_all(part)))()
+    };
+    let ok = r.is_ok();
+    core::mem::forget(r);
+    assert!(ok);
+    let mut want = [0u8; 8];
+    let n = if !matches!(c, 0x00..=0x1F | b'\\' | b'"' | 0x7F) {
+        want[0] = c;
+        1
+    } else {
+        escape_spec(c, true, &mut want)
+    };
+    assert!(buf.n == n + 2 && buf.b[0] == b'"' && buf.b[n + 1] == b'"');
+    let mut i = 0;
+    while i < n {
+        assert!(buf.b[1 + i] == want[i]);
+        i += 1;
+    }
+}
+macro_rules! write_utf8_bytes {
+    ($($name:ident: $c:expr;)*) => {$(
+        #[kani::proof]
+        #[kani::unwind(14)]
+        fn $name() {
+            write_utf8_one($c)
+        }
+    )*};
+}
+write_utf8_bytes! {
+    c07_write_utf8_00: 0x00; c07_write_utf8_1f: 0x1f; c07_write_utf8_20: 0x20; c07_write_utf8_22: 0x22;
+    c07_write_utf8_5c: 0x5c; c07_write_utf8_7e: 0x7e; c07_write_utf8_7f: 0x7f; c07_write_utf8_80: 0x80;
+}
+
 // ------------------------------------------------------------------------------------------
 // C08: big integers among themselves and against infinities, for every value up to 128 bits
 // (thorough tier: 7-8 minutes each).  Anything that goes through `BigInt::to_f64` on a symbolic
@@ -967,4 +1029,19 @@ fn c08_big_cmp_inf() {
     let want = if f > 0.0 { Less } else { Greater };
     assert!((*b).cmp(&*n) == want && (*n).cmp(&*b) == want.reverse());
     assert!(*b != *n && *n != *b);
+}
+
+/// `bigint_to_int_saturated` (string repetition by a big integer): the value clamped into the
+/// machine-integer range, for every big integer up to 128 bits
+#[kani::proof]
+#[kani::unwind(6)]
+fn c09_bigint_saturated() {
+    let x: i128 = kani::any();
+    kani::cover!(x > MAXI);
+    kani::cover!(x < MINI);
+    let b = BigInt::from(x);
+    let got = bigint_to_int_saturated(&b);
+    core::mem::forget(b);
+    let want = if x > MAXI { isize::MAX } else if x < MINI { isize::MIN } else { x as isize };
+    assert!(got == want);
 }
